@@ -88,6 +88,33 @@ theorem rulelist_client_rule_counterexample :
         [.query ⟨"h", 2⟩ 1, .query ⟨"h", 2⟩ 2] := by
   decide
 
+/-- Non-vacuity with respect to key collisions: a key function that ignores the host altogether —
+*every* two hosts collide — satisfies `HashOK`, so `transparent_rulelist` covers it; the run shows
+the host comparison turning the colliding hit into a miss (and the overwritten slot into another). -/
+example :
+    let e : Key → Nat → String := fun k _ => if k.host = "ads.example" then "blocked" else "none"
+    HashOK (fun k : Key => k.sub) ∧
+    RL.run (fun k : Key => k.sub) { engine := e, cache := Tbl.empty, enabled := true }
+      [.query ⟨"ok.example", 2⟩ 1, .query ⟨"ads.example", 2⟩ 1, .query ⟨"ok.example", 2⟩ 2] =
+      [some "none", some "blocked", some "none"] := by
+  exact ⟨fun _ _ _ h => h, by decide⟩
+
+/-- **rulelist_same_host_collision_counterexample.** `HashOK` is necessary: the cached item carries the
+host but not the question type, so if the keys of (h, A) and (h, AAAA) agree, a `$dnstype=A` rule's
+verdict for the A question is served for the AAAA question.  (With the 64-bit `maphash` sum this needs
+a collision among the handful of tuples of one host; the harness searches for such pairs with the
+real key function on every run and would drive them through the real filter.) -/
+theorem rulelist_same_host_collision_counterexample :
+    let e : Key → Nat → String := fun k _ => if k.sub = 2 then "blocked" else "none"
+    let hash : Key → String := fun k => k.host
+    ClientFree e ∧ ¬ HashOK hash ∧
+    RL.run hash { engine := e, cache := Tbl.empty, enabled := true } [.query ⟨"h", 2⟩ 1, .query ⟨"h", 56⟩ 1] ≠
+      RL.run hash { engine := e, cache := Tbl.empty, enabled := false } [.query ⟨"h", 2⟩ 1, .query ⟨"h", 56⟩ 1] := by
+  refine ⟨fun _ _ _ => rfl, ?_, by decide⟩
+  intro h
+  have := h "h" 2 56 rfl
+  omega
+
 /-- **rulelist_matches_spec.** Independent specification: the cached filter answers every query of
 every history with the value of the engine installed by the latest refresh — a fold over the history
 that tracks nothing but the current engine. -/
@@ -556,6 +583,7 @@ theorem custom_same_time_counterexample :
 #print axioms rulelist_no_stale_after_refresh
 #print axioms rulelist_client_rule_counterexample
 #print axioms rulelist_matches_spec
+#print axioms rulelist_same_host_collision_counterexample
 #print axioms transparent_safesearch
 #print axioms cache_key_bytes_injective
 #print axioms cache_key_truncated_type_counterexample
@@ -578,3 +606,6 @@ end Agd.ResultCache
 #print axioms Agd.Tie.TrC12.hp_clear_bumps_generation
 #print axioms Agd.Tie.TrC12.hp_set_only_same_generation
 #print axioms Agd.Tie.TrC12.rl_clear_and_swap_under_lock
+#print axioms Agd.Tie.TrC12.rl_item_hit_iff_same_host
+#print axioms Agd.Tie.TrC12.hp_item_hit_iff_same_host
+#print axioms Agd.Tie.TrC12.rl_dnsresult_hit_or_compute
